@@ -53,13 +53,22 @@ theorem insert_out (s : St) (e : Ev) : (s.insert e).out = s.out := by
   simp only []
   exact insertCoords_out s e
 
+theorem queueRound_out (s : St) (r : Int) (ri : RoundInfo) : (s.queueRound r ri).out = s.out := by
+  unfold St.queueRound; split <;> rfl
+
+theorem assignRound_out (s : St) (id : String) (ev : Ev) : (s.assignRound id ev).out = s.out := by
+  unfold St.assignRound
+  simp only [update_out, setRound_out, queueRound_out]
+
+theorem assignLamport_out (s : St) (id : String) : (s.assignLamport id).out = s.out := by
+  unfold St.assignLamport; split <;> rfl
+
 theorem divideOne_out (s : St) (id : String) : (divideOne s id).out = s.out := by
   unfold divideOne
   split
   · rfl
-  · rename_i ev _
-    cases hr : ev.round <;> cases hl : ev.lamport <;> simp only [] <;>
-      (try split) <;> (try split) <;> (try split) <;> rfl
+  · simp only []
+    split <;> split <;> simp only [assignLamport_out, assignRound_out]
 
 theorem divideRounds_out (s : St) : s.divideRounds.out = s.out := foldl_out _ divideOne_out _ _
 
